@@ -736,6 +736,99 @@ func runC17(r *ev.Run) {
 		r.Count("close-final-flush:"+point, 1)
 		r.Eval(true, ev.Digest("cff", point, ci%2, ci))
 	})
+	// ------------------------------------------------------------------ a stale handle that still holds a late write
+	// An Add that has passed the store's closed check is held inside the memtable queue; Close runs to completion beside
+	// it; the Add resumes (acknowledged into the closed handle's memory, or refused). Whatever the old handle holds now,
+	// its SECOND Close reports an error and changes nothing — with and without a new owner on the directory.
+	latePoints := []string{"memq.add.picked", "memtable.add.prelock", "search.listed-memtables", "store.remove.picked"}
+	r.Cases("stale-handle-late-write", r.Pick(8, 60), func(ci int, rng *rand.Rand) {
+		dir, err := os.MkdirTemp("", "verif-c17l-*")
+		if err != nil {
+			panic(err)
+		}
+		defer os.RemoveAll(dir)
+		point := latePoints[ci%len(latePoints)]
+		withOwner := (ci/len(latePoints))%2 == 0
+		rep := func(sig, what string) {
+			r.ViolationAt("stale-handle-late-write", ci, sig, fmt.Sprintf("operation held at %s while Close ran, new owner=%v: %s", point, withOwner, what), nil)
+		}
+		s, err := p.open(dir)
+		if err != nil {
+			rep("own.open-fails-on-free-directory", err.Error())
+			return
+		}
+		ids := newIDGen(rng)
+		ids.min = 1 << 24
+		for i := 0; i < rng.IntN(3); i++ {
+			d := genStoreDoc(rng, p, ids.next(), "l")
+			s.AddWithID(d.ID, d.Vec, d.Text, d.Meta)
+		}
+		var closeDone chan struct{}
+		var closeErr error
+		ctl.setTarget(point, 1, func(args []any) {
+			_, closeDone = runBeside(func() { closeErr = s.Close() }, 2*time.Second)
+		})
+		d := genStoreDoc(rng, p, ids.next(), "late")
+		var addErr error
+		func() {
+			defer func() {
+				if pv := recover(); pv != nil {
+					rep("own.ops-racing-with-close", fmt.Sprintf("PANIC in the operation that was held while Close ran: %v", pv))
+					addErr = fmt.Errorf("panic")
+				}
+			}()
+			switch point {
+			case "search.listed-memtables": // a search that has listed the memtables; Close completes; it goes on to the segments
+				_, addErr = s.NewSearch().WithText("common").WithK(5).Execute()
+			case "store.remove.picked":
+				addErr = s.Remove(d.ID)
+			default:
+				addErr = s.AddWithID(d.ID, d.Vec, d.Text, d.Meta)
+			}
+		}()
+		fired := ctl.fired()
+		ctl.clearTarget()
+		if !fired || closeDone == nil {
+			s.Close()
+			r.Inconclusive("add point not reached: " + point)
+			return
+		}
+		select {
+		case <-closeDone:
+		case <-time.After(60 * time.Second):
+			r.Inconclusive("Close beside a held Add did not return within 60 s")
+			return
+		}
+		if closeErr != nil {
+			rep("own.close-error", closeErr.Error())
+			return
+		}
+		if addErr == nil {
+			r.Count("stale-handle-late-write:held-operation-answered-nil", 1)
+		} else {
+			r.Count("stale-handle-late-write:held-operation-refused", 1)
+		}
+		var owner *comet.PersistentHybridIndex
+		if withOwner {
+			if owner, err = p.open(dir); err != nil {
+				rep("own.open-after-close-fails", err.Error())
+				return
+			}
+		}
+		before := dirState(dir)
+		err2 := s.Close()
+		if err2 == nil {
+			rep("own.second-close-succeeds", "a second Close returned nil")
+		}
+		if after := dirState(dir); after != before {
+			rep("own.second-close-modifies-directory", fmt.Sprintf("a second Close on a stale handle (held operation -> %v) changed the directory:\n before %s\n after  %s", addErr, before, after))
+		}
+		if owner != nil {
+			owner.Close()
+		}
+		r.Count("stale-handle-late-write:"+point, 1)
+		r.Eval(true, ev.Digest("shl", point, withOwner, ci))
+	})
 	ctl.uninstall()
 
 	// ------------------------------------------------------------------ another process
